@@ -11,7 +11,7 @@ import glob, os, subprocess, sys, fcntl
 
 VERIF = os.path.dirname(os.path.dirname(os.path.abspath(__file__)))
 REPO = os.environ.get("VERIF_REPO", "/repo")
-BUILD = os.path.join(VERIF, "build")
+BUILD = os.environ.get("VERIF_BUILD", os.path.join(VERIF, "build"))
 
 VARIANTS = {
     "ossl-plain": dict(crypto="ossl", cxx="g++", flags="-O2 -g1", ld=""),
